@@ -21,6 +21,8 @@ pub fn lazy_env() -> EnvSpec {
             FnSpec::new("boom", false, FnKind::Fail),
             // a cacheable function around non-cacheable calls: memoising a call must not memoise its argument's calls
             FnSpec::new("memo", true, FnKind::Id),
+            // a cacheable function that fails: it must be invoked once per call (failures are not remembered, nor retried)
+            FnSpec::new("cboom", true, FnKind::Fail),
         ],
     }
 }
@@ -32,9 +34,10 @@ pub enum Shape {
 }
 
 pub const LEAF_FNS: [&str; 5] = ["t", "f", "n", "v", "boom"];
+/// leaf kind 9: a call of the cacheable failing function
 /// leaf kinds: 0..=4 calls of the logging functions above; 5 literal `true`; 6 literal `false`; 7 `i1 / i0` (an error
 /// that is not a call); 8 literal `none` — a fast path keyed on the *syntactic form* of an operand shows only on these
-pub const N_LEAF: usize = 9;
+pub const N_LEAF: usize = 10;
 /// `callx` = a call of a function that is not registered (its argument must still be evaluated first)
 /// `callc` = a call of the cacheable `memo`; `dup` = the same sub-expression written twice (`[e, e]`: identical text,
 /// identical arguments — every call in it must still be evaluated once per occurrence)
@@ -51,6 +54,10 @@ pub fn build_shape(s: &Shape, site: &mut i128) -> Expr {
             6 => lit(Value::Bool(false)),
             7 => mk_bin("div", lit(Value::Int(1)), lit(Value::Int(0))),
             8 => lit(Value::None),
+            9 => {
+                *site += 1;
+                call("cboom", lit(Value::Int(*site)))
+            }
             _ => {
                 *site += 1;
                 call(LEAF_FNS[*k], lit(Value::Int(*site)))
@@ -125,7 +132,7 @@ pub fn lazy_cases(rng: &mut Rng, thorough: bool) -> Vec<RsCase> {
             for (cop, car) in LAZY_OPS {
                 for ct in tuples(N_LEAF, car) {
                     // restrict the inner tuple to the boolean-ish kinds to bound the count unless thorough
-                    if !thorough && ct.iter().any(|k| *k == 3 || *k == 8) {
+                    if !thorough && ct.iter().any(|k| *k == 3 || *k == 8 || *k == 9) {
                         continue;
                     }
                     for others in tuples(5, ar - 1) {
@@ -161,6 +168,22 @@ pub fn lazy_cases(rng: &mut Rng, thorough: bool) -> Vec<RsCase> {
             })
             .collect();
         shapes.push(Shape::Node(op, ch));
+    }
+    // long chains: `l1 op l2 op … op ln` (left-nested, as the parser builds them) of 10 / 33 / 40 / 70 links, one operator
+    // or two alternating ones, the deciding / failing leaf early, in the middle or at the end
+    for n in [10usize, 33, 40, 70] {
+        for (o1, o2) in [("and", "and"), ("or", "or"), ("and", "or"), ("or", "and"), ("add", "add"), ("eq", "and")] {
+            for special_at in [0usize, 1, n / 2, n - 2, n - 1] {
+                for (fill, special) in [(0usize, 1usize), (1, 0), (0, 4), (1, 4), (0, 6), (1, 5), (0, 9), (0, 7)] {
+                    let mut acc = Shape::Leaf(if special_at == 0 { special } else { fill });
+                    for i in 1..n {
+                        let leaf = Shape::Leaf(if i == special_at { special } else { fill });
+                        acc = Shape::Node(if i % 2 == 1 { o1 } else { o2 }, vec![acc, leaf]);
+                    }
+                    shapes.push(acc);
+                }
+            }
+        }
     }
     shapes
         .into_iter()
@@ -502,6 +525,71 @@ pub fn deep_none_cases(rng: &mut Rng, n: usize) -> Vec<RsCase> {
             _ => (iff(e, lit(Value::Int(1)), lit(Value::Int(2))), "(err type)"),
         };
         out.push(RsCase { tag: format!("expect:{}", expect), rules: vec![e], facts: facts.clone(), env: EnvSpec::default(), evals: 1 });
+    }
+    out
+}
+
+// ------------------------------------------------------------------ C01 / C02: long operator chains over values
+
+/// left-nested chains `v1 op v2 op … op vn` of 10 / 33 / 40 / 70 / 150 operands for every binary operator (one operator, or
+/// two of the same family alternating), over small well-typed operands with one special operand (None, a type error,
+/// zero, an extreme) at the start, in the middle or at the end; and long lists / maps / access paths
+pub fn chain_cases() -> Vec<RsCase> {
+    let env = EnvSpec { syms: vec![], fns: vec![] };
+    let mut out = vec![];
+    let fam: Vec<(&str, &str, Vec<Value>, Vec<Value>)> = vec![
+        ("and", "or", vec![Value::Bool(true), Value::Bool(false)], vec![Value::None, Value::Int(1)]),
+        ("or", "and", vec![Value::Bool(false), Value::Bool(true)], vec![Value::None, s("x")]),
+        ("add", "sub", vec![Value::Int(3), Value::Int(-7)], vec![Value::None, Value::Int(i128::MAX), s("x"), Value::Float(1.0)]),
+        ("mult", "div", vec![Value::Int(2), Value::Int(3)], vec![Value::Int(0), Value::None, Value::Int(i128::MAX)]),
+        ("rem", "mult", vec![Value::Int(1000003), Value::Int(97)], vec![Value::Int(0), Value::None]),
+        ("bitand", "bitxor", vec![Value::Int(0xff0f), Value::Int(0x0ff3)], vec![Value::None, Value::Bool(true)]),
+        ("bitor", "bitand", vec![Value::Int(1), Value::Int(6)], vec![Value::None]),
+        ("add", "add", vec![d(15, 1), d(-25, 2)], vec![Value::None, Value::Int(1)]),
+        ("add", "add", vec![Value::Float(0.1), Value::Float(0.2)], vec![Value::Float(f64::NAN), Value::None]),
+        ("eq", "neq", vec![Value::Bool(true), Value::Bool(false)], vec![Value::None, Value::Int(0)]),
+        ("lt", "eq", vec![Value::Int(1), Value::Bool(true)], vec![Value::None]),
+    ];
+    for n in [10usize, 33, 40, 70, 150] {
+        for (o1, o2, fill, specials) in &fam {
+            let mut positions = vec![usize::MAX, 0, 1, n / 2, n - 2, n - 1];
+            positions.dedup();
+            for special_at in positions {
+                for sp in specials {
+                    for alt in [false, true] {
+                        let leaf = |i: usize| if i == special_at { lit(sp.clone()) } else { lit(fill[i % fill.len()].clone()) };
+                        let mut acc = leaf(0);
+                        for i in 1..n {
+                            let op = if alt && i % 2 == 0 { o2 } else { o1 };
+                            acc = mk_bin(op, acc, leaf(i));
+                        }
+                        out.push(RsCase { tag: format!("chain {} {} n{}", o1, o2, n), rules: vec![acc], facts: Value::None, env: env.clone(), evals: 1 });
+                        if special_at == usize::MAX {
+                            break;
+                        }
+                    }
+                    if special_at == usize::MAX {
+                        break;
+                    }
+                }
+            }
+        }
+        // long lists, maps, access paths and unary towers
+        let items: Vec<Expr> = (0..n as i128).map(|i| mk_bin("add", lit(Value::Int(i)), lit(Value::Int(1)))).collect();
+        out.push(RsCase { tag: format!("list n{}", n), rules: vec![Expr::Vec(items.clone()), idxn(Expr::Vec(items.clone()), n - 1), idxn(Expr::Vec(items.clone()), n)], facts: Value::None, env: env.clone(), evals: 1 });
+        let entries: Vec<(String, Expr)> = (0..n).map(|i| (format!("k{:03}", (i * 7 + 3) % n), lit(Value::Int(i as i128)))).collect();
+        out.push(RsCase { tag: format!("map n{}", n), rules: vec![Expr::Map(entries.iter().cloned().collect()), mk_bin("contains", Expr::Map(entries.iter().cloned().collect()), lit(s("k001")))], facts: Value::None, env: env.clone(), evals: 1 });
+        let mut nested = Value::Int(42);
+        for i in 0..n.min(60) {
+            nested = if i % 2 == 0 { crate::pool::map(&[("a", nested)]) } else { Value::Vec(vec![Value::None, nested]) };
+        }
+        let mut path = reff("facts");
+        for i in (0..n.min(60)).rev() {
+            path = if i % 2 == 0 { idxk(path, "a") } else { idxn(path, 1) };
+        }
+        out.push(RsCase { tag: format!("path n{}", n), rules: vec![path.clone(), idxk(path, "zz")], facts: nested, env: env.clone(), evals: 1 });
+        let tower = (0..n.min(60)).fold(lit(Value::Int(5)), |e, i| mk_un(if i % 2 == 0 { "neg" } else { "some" }, e));
+        out.push(RsCase { tag: format!("tower n{}", n), rules: vec![tower], facts: Value::None, env: env.clone(), evals: 1 });
     }
     out
 }
